@@ -44,6 +44,13 @@ Definition storaget_fixed (c0 : settings) (h : hist) : Prop :=
 Definition storaget_fixed_cache_injective_stmt : Prop :=
   forall c0 h, storaget_fixed c0 h -> cache_injective c0 h.
 
+(* and so does every history of a builder that records the type parameter in
+   the cache string (the proposed repair) *)
+Definition storaget_recorded (c0 : settings) (h : hist) : Prop :=
+  forall c, In c (used c0 h) -> p_stc c = p_st c.
+Definition storaget_recorded_cache_injective_stmt : Prop :=
+  forall c0 h, storaget_recorded c0 h -> cache_injective c0 h.
+
 (* ---- outcome of a build ------------------------------------------------ *)
 Definition build_ok (r : outcome bres) : Prop :=
   exists b, r = Done b /\ b_err b = None.
@@ -177,10 +184,10 @@ Definition ex_y (id : nat) : ysrc := {| y_id := id; y_syn := true; y_warn := fal
 Definition ex_l : lsrc := {| l_id := 0; l_syn := true; l_miss := false |}.
 Definition ex_c : settings :=
   {| p_yk := 0; p_rec := 0; p_vis := 0; p_ed := 2; p_eoc := true; p_wae := true; p_sw := true;
-     p_ser := 0; p_mod := 0; p_st := 2; l_vis := 0; l_ed := 2; l_mod := 0; l_ci := 0 |}.
+     p_ser := 0; p_mod := 0; p_st := 2; p_stc := 0; l_vis := 0; l_ed := 2; l_mod := 0; l_ci := 0 |}.
 Definition ex_c_vis : settings :=
   {| p_yk := 0; p_rec := 0; p_vis := 1; p_ed := 2; p_eoc := true; p_wae := true; p_sw := true;
-     p_ser := 0; p_mod := 0; p_st := 2; l_vis := 0; l_ed := 2; l_mod := 0; l_ci := 0 |}.
+     p_ser := 0; p_mod := 0; p_st := 2; p_stc := 0; l_vis := 0; l_ed := 2; l_mod := 0; l_ci := 0 |}.
 Definition ex_c_st : settings :=
   {| p_yk := 0; p_rec := 0; p_vis := 0; p_ed := 2; p_eoc := true; p_wae := true; p_sw := true;
-     p_ser := 0; p_mod := 0; p_st := 0; l_vis := 0; l_ed := 2; l_mod := 0; l_ci := 0 |}.
+     p_ser := 0; p_mod := 0; p_st := 0; p_stc := 0; l_vis := 0; l_ed := 2; l_mod := 0; l_ci := 0 |}.
